@@ -1,4 +1,4 @@
-"""Leg T for frames (C11, C06, C17, C03, C12): recorded executions validated against FrameTrace.tla."""
+"""Leg T for frames (C11, C06, C17, C03, C12, C05): recorded executions validated against FrameTrace.tla."""
 import logging
 import json
 import os
@@ -17,7 +17,7 @@ def frame_trace_leg(ctx, pid):
     `C12_data_changed_only_by_own_calls` (the specification switches it off for traces whose header says `strict: false`).
     `cont_file` (recorder and specification count the same saves per path) is a machinery clause: its failure is an error."""
     n = ctx.pick(120, 2000)
-    base = 7000003 * ctx.seed + {"C11": 0, "C06": 300000, "C17": 600000, "C03": 1200000, "C12": 1500000}.get(pid, 900000)
+    base = 7000003 * ctx.seed + {"C11": 0, "C06": 300000, "C17": 600000, "C03": 1200000, "C12": 1500000, "C05": 1800000}.get(pid, 900000)
     lvl = logging.root.manager.disable
     logging.disable(logging.CRITICAL)          # blimpy narrates every file it writes
     try:
